@@ -781,14 +781,32 @@ def serializer_flags(prog):
     te = fn.terms
     errs = []
     n = 0
-    for bb, t, line in te.aggs:
-        if t[3] == "Ptr" and "compl" in t[5]:
+    # every pointer the helper *returns* is a freshly built Ptr{index, compl: is_neg(ptr)} (or a constant):
+    # a stored / cached pointer would carry the complement flag of whichever edge reached the node first
+    alts = []
+
+    def collect(t, pb):
+        if isinstance(t, tuple) and t and t[0] in ("phi", "gamma"):
+            for p_, v in t[2]:
+                collect(v, p_ if t[0] == "phi" else pb)
+        else:
+            alts.append(t)
+    for b, t in te.ret_by_block.items():
+        collect(t, b)
+    for t in alts:
+        t = strip(t)
+        if t[0] == "agg" and t[3] in ("True", "False"):
+            continue
+        if t[0] == "agg" and t[3] == "Ptr" and "compl" in t[5]:
             n += 1
             c = strip(t[4][t[5].index("compl")])
             if not (mir.is_call(c, "is_neg") and strip(c[2][0]) == ("param", 1)):
-                errs.append("line %d: compl flag is %s, expected is_neg(ptr)" % (line, show(c)[:60]))
+                errs.append("compl flag is %s, expected is_neg(ptr)" % show(c)[:60])
+            continue
+        errs.append("a returned pointer is not built for the current edge (%s): its complement flag is that of another "
+                    "edge to the same node" % show(t)[:70])
     if n < 2:
-        errs.append("Ptr{index, compl} constructions not found")
+        errs.append("expected the revisit and the first-visit path to build Ptr{index, compl}")
     out.append(inst("CP", "%s:compl-flag" % fn.npath, VIOLATION if errs else OK, fn, None,
                     "; ".join(errs) if errs else "every emitted pointer carries compl = is_neg(ptr)"))
     fn = prog.find1(name="serialize_helper", self_adt="serialize::ser_sdd::SDDSerializer", unit="rsdd-lib")
